@@ -92,8 +92,8 @@ func canonicalList(dst *Segment, l List) (List, error) {
 	if !l.IsValid() {
 		return List{}, nil
 	}
-	if l.size.PointerCount == 0 {
-		// Data only, just copy over.
+	if l.size.PointerCount == 0 && l.flags&isCompositeList == 0 {
+		// Primitive list without pointers, just copy over.
 		sz := l.allocSize()
 		_, newAddr, err := alloc(dst, sz)
 		if err != nil {
